@@ -7,7 +7,9 @@
    why the open must truncate.
    Atomic = FALSE models the code before the fix (openat(O_TRUNC <file>) . write): TLC finds the window with an
    empty / partial definition.  Trunc = FALSE models the seeded defect C18-d (the temporary file is opened without
-   O_TRUNC): TLC finds the shorter text saved after a killed save of a longer one, followed by the longer one's tail. *)
+   O_TRUNC): TLC finds the shorter text saved after a killed save of a longer one, followed by the longer one's tail.
+   Since 7d5873a every save creates a temporary file of its own (see DagStoreConc.tla); for one saver at a time that
+   is this model with Trunc = TRUE: the file a save writes to starts empty.                                        *)
 EXTENDS Integers, Sequences, TLC
 
 CONSTANTS Atomic, Trunc
